@@ -1,8 +1,98 @@
-import Pyrtma.Spec.Manager
+import Pyrtma.Proofs.Manager
+/-!
+# C14 — undeliverable messages are reported, not silently lost
+
+Theorems about one iteration of `forward_message`'s recipient loop (`deliverOne`), about the failure branch shared by
+`forward_message`, `send_to_loggers` and `send_ack` (`trySend`) and about `send_failed_message` (`failedMsg`), for every
+state, frame, writable set, set of failing sockets and every nested forward `fwd`.
+-/
 namespace Pyrtma.C14
 open Pyrtma.Mgr
 
-/-- placeholder while the proofs are being written (replaced below) -/
-theorem wip : True := trivial
+/-- the FAILED_MESSAGE the manager builds: names the subscriber's module id, carries the original header's type,
+    source and destination, is sent from the manager (id 0) as a broadcast -/
+theorem notice_shape (cfg : Cfg) (d : Int) (f : Frame) :
+    (failedFrame cfg d f).body = .failed d f.mtype f.src f.dest ∧ (failedFrame cfg d f).mtype = cfg.mtFailed ∧
+    (failedFrame cfg d f).src = 0 ∧ (failedFrame cfg d f).dest = 0 ∧ (failedFrame cfg d f).destHost = 0 :=
+  ⟨rfl, rfl, rfl, rfl, rfl⟩
+
+/-- **A subscriber that is not ready to accept data is reported**: for a subscriber `u` of the snapshot that is still in
+the table, not in the writable set and not a logger, the loop iteration *is* `send_failed_message(u's id, header)` (after
+counting the drop) — nothing is written to `u`, and when the frame's type is outside the recursion guard this publishes
+the FAILED_MESSAGE through `forward_message` itself, i.e. to everyone subscribed to FAILED_MESSAGE as C01 describes. -/
+theorem not_writable_is_reported (cfg : Cfg) (fwd : Fwd) (f : Frame) (s : State) (u : Nat) (m : Module)
+    (hm : s.find u = some m) (hw : u ∉ s.wlist) (hl : m.isLogger = false) :
+    deliverOne cfg fwd f s u =
+      failedMsg cfg fwd (s.upd u (fun m => { m with drops := m.drops + 1 })) m.modId f ∧
+    (inGuard cfg f.mtype = false →
+      deliverOne cfg fwd f s u =
+        fwd (s.upd u (fun m => { m with drops := m.drops + 1 })) (failedFrame cfg m.modId f)) := by
+  have h1 : deliverOne cfg fwd f s u =
+      failedMsg cfg fwd (s.upd u (fun m => { m with drops := m.drops + 1 })) m.modId f := by
+    unfold deliverOne; simp [hm, hw, hl]
+  refine ⟨h1, fun hg => ?_⟩
+  rw [h1]; unfold failedMsg; simp [hg]
+
+/-- **A logger module is waited for instead of being skipped**: a logger that is not in the writable set is written
+to all the same. -/
+theorem logger_never_skipped (cfg : Cfg) (fwd : Fwd) (f : Frame) (s : State) (u : Nat) (m : Module)
+    (hm : s.find u = some m) (hw : u ∉ s.wlist) (hl : m.isLogger = true) :
+    deliverOne cfg fwd f s u = trySend cfg fwd s u f := by
+  unfold deliverOne; simp [hm, hw, hl]
+
+/-- **A connection that fails during the send is reported** (and its module removed, C07): if the write to `u` raises
+`ConnectionError`, what follows is exactly: remove `u`, log the error, `send_failed_message(u's id, header)`. -/
+theorem write_failure_is_reported (cfg : Cfg) (fwd : Fwd) (f : Frame) (s : State) (u : Nat) (m : Module)
+    (hm : s.find u = some m) (hc : m.closed = false) (hf : failOf s u ≠ none) (hcr : s.crashed = none) :
+    trySend cfg fwd s u f =
+      failedMsg cfg fwd (logAt cfg fwd 40 (removeModule cfg fwd (sendRaw s u f).1 u)) m.modId f := by
+  have hok : (sendRaw s u f).2 = false := by
+    rw [sendRaw_ok]; unfold canTake; simp [hm]
+    cases h : failOf s u with
+    | none => exact absurd h hf
+    | some _ => simp
+  have hnc : (sendRaw s u f).1.crashed.isSome = false := by
+    unfold sendRaw; simp only [hm, hc, Bool.false_eq_true, if_false]
+    have hfo : failOf (s.upd u fun m => { m with msgCount := m.msgCount + 1 }) u = failOf s u := rfl
+    rw [hfo]
+    cases h : failOf s u with
+    | none => exact absurd h hf
+    | some x => cases x <;> simp [State.emit, State.upd, hcr]
+  unfold trySend
+  simp only [hm, hok, Bool.false_eq_true, if_false, hnc]
+
+/-- **No notice about a notice or a log message**: for a frame whose type is FAILED_MESSAGE or one of the six RTMA_LOG
+types, `send_failed_message` does nothing at all — whatever made the delivery fail. -/
+theorem no_notice_about_notices (cfg : Cfg) (fwd : Fwd) (s : State) (d : Int) (f : Frame)
+    (hg : inGuard cfg f.mtype = true) : failedMsg cfg fwd s d f = s := by
+  unfold failedMsg; simp [hg]
+
+/-- …and outside the guard the notice is always handed to `forward_message` -/
+theorem notice_is_published (cfg : Cfg) (fwd : Fwd) (s : State) (d : Int) (f : Frame)
+    (hg : inGuard cfg f.mtype = false) : failedMsg cfg fwd s d f = fwd s (failedFrame cfg d f) := by
+  unfold failedMsg; simp [hg]
+
+/-- **Globally**: nothing the manager does while forwarding a frame — at any nesting depth, with any readiness and any
+failures — ever writes a FAILED_MESSAGE that reports the failed delivery of a FAILED_MESSAGE or RTMA_LOG message
+(unless the forwarded frame is itself such a notice). -/
+theorem never_a_notice_about_a_notice (cfg : Cfg) (fuel : Nat) (s : State) (g : Frame)
+    (hg : guardNotice cfg g.body = false) :
+    dataSends (guardNotice cfg) (forward cfg fuel s g).out = dataSends (guardNotice cfg) s.out :=
+  (forward_ok cfg (tag_guardNotice cfg) fuel s g hg).2
+
+/-- the recursion guard is exactly FAILED_MESSAGE and RTMA_LOG … RTMA_LOG_DEBUG -/
+theorem guard_types (cfg : Cfg) (t : Int) :
+    inGuard cfg t = true ↔ (t = cfg.mtFailed ∨ (cfg.mtLog ≤ t ∧ t ≤ cfg.mtLog + 5)) := by
+  unfold inGuard; simp
+
+/-! ### Non-vacuity: module 2 subscribed but not writable, module 3 watches FAILED_MESSAGE -/
+def exState : State :=
+  { mods := [{ uid := 0, connected := true }, { uid := 1, modId := 10, connected := true },
+             { uid := 2, modId := 11, connected := true, subs := [5000] },
+             { uid := 3, modId := 12, connected := true, subs := [8] }],
+    idx := [(5000, [2]), (8, [3])], wlist := [1, 3], nextUid := 3 }
+def exFrame : Frame := { mtype := 5000, src := 10, dest := 0, destHost := 0, nbytes := 4, body := .data 7 }
+example : (forward {} 9 exState exFrame).out = [.send 3 1 (failedFrame {} 11 exFrame)] := by decide
+example : inGuard {} 8 = true ∧ inGuard {} 42 = true ∧ inGuard {} 5000 = false ∧ inGuard {} 46 = false := by decide
 
 end Pyrtma.C14
